@@ -1080,6 +1080,10 @@ func (ex *Exec) execRange(st *State, s *ast.RangeStmt, label string) flow {
 		if seen != nil {
 			m["$seen"] = s0.vars[ex.hidden(ord)]
 		}
+		if kind == "slice" || kind == "array" {
+			// the (once-evaluated) range operand, for invariants over an unnamed slice
+			m["ranged"] = x
+		}
 		return m
 	}
 	hid := ex.hidden(ord)
